@@ -33,9 +33,7 @@ def audit(prop, ops_used, tie_theorems, tie_modules):
     text = "".join("import %s\n" % m for m in imports) + "open Qv.TieAudit\n"
     text += "#eval allHandlerSides\n#eval theoremSide `Qv.Props.%s\n" % prop
     text += "#eval statementSide #[%s]\n" % ", ".join("`" + t for t in tie_theorems)
-    ok, log = common.lean_build(["Qv.TieAudit"] + _driver_modules())      # takes the lake lock itself
-    if not ok:
-        return dict(ok=False, problems=["tie audit: Qv.TieAudit / driver modules do not build: " + log[-400:]], report={})
+    # Qv.TieAudit and the driver modules were built by common.lean_audit of this run (one lake call)
     tmp = os.path.join(common.LEAN, ".lake", "tie_audit_%s_%d.lean" % (prop, os.getpid()))
     open(tmp, "w").write(text)
     try:
